@@ -18,9 +18,9 @@ func init() {
 		Explanation: "Decides the structural core of every sentence of C16 from the source of optimizeReordering and what it calls: (R-SORTGATE) the only effects of the reordering pass on the tree are the store of astNode.cost and a sort of root.children that executes only on the true edge of isBoolOpNode(root.node) for the same root — so only and/or operands move, and they are only permuted (a sort permutes in place; there is no append, removal or element store); " +
 			"(R-STABLE) the sort callee is sort.SliceStable/sort.Stable (sort.Slice is an insertion sort, hence stable, up to 12 elements, so no test with a short operand list can see the difference); (R-LESS) the comparator returns children[i].cost < children[j].cost, strict, on its own i and j, over the slice being sorted; " +
 			"(R-MONO) the value stored into root.cost is built from constants, len-terms, the result of getCosts and children's cost, where the last two reach the store only through float +, math.Max and phi (monotone in each argument), and getCosts returns the CostsMap entry of the name, else the class entry, else a constant — so raising one entry cannot lower any subtree cost and leaves subtrees not mentioning the name unchanged; with stability this is the 'never moves ahead / eventually after' clause. " +
-			"(R-PAIRBOOL) isBoolOpNode is exactly isAndOpNode || isOrOpNode over the table keys implemented by logic{and}/logic{or}. (R-COSTALL) the cost of an `if` reads exactly the operand children (the indices calAndSetNodes emits as condition and branches, not the `fi` marker) and every other node adds the cost of every child. NOT decided: NaN costs (comparisons with NaN are not a strict weak order; outside the statement) and the concrete cost numbers.",
+			"(R-PAIRBOOL) isBoolOpNode is exactly isAndOpNode || isOrOpNode over the table keys implemented by logic{and}/logic{or}. (R-COSTALL) the cost of an `if` reads exactly the operand children (the indices calAndSetNodes emits as condition and branches, not the `fi` marker) and every other node adds the cost of every child. NOT decided: NaN costs (comparisons with NaN are not a strict weak order; outside the statement) and the concrete cost numbers. Round 2: (R-PASSORDER) the optimizations list is a constant list that nothing writes and names ReduceNesting before Reordering: operands are sorted only after nested same-kind groups were merged.",
 		Run:       runC16,
-		Witnesses: c16Witnesses,
+		Witnesses: append(append([]Witness{}, passOrderWitnesses...), c16Witnesses...),
 	})
 }
 
@@ -88,6 +88,7 @@ func fieldLoadOfVar(v ssa.Value, typeName, field string) *ssa.Parameter {
 }
 
 func runC16(w *World, r *Report) {
+	rulePassOrder(w, r)
 	fn := w.MustFn(r, "R-SORTGATE", "optimizeReordering")
 	if fn == nil {
 		return
